@@ -32,7 +32,7 @@ func init() {
 	vc.Register(&vc.Check{
 		ID:    "C29",
 		Level: "exploration",
-		Rule: "schedules: all interleavings up to the preemption bound (quick 2, thorough 3) of 2 writer threads x 2 lines and one Flush thread on the real GatedWriter, and of 2 writers plus RegisterHandler on the real logWriter (ring sizes 2,3), with a scheduling point at every lock operation and before every statement of the methods under test (field read-modify-writes split into read/point/write); non-trivial = at least one non-default choice",
+		Rule:  "schedules: all interleavings up to the preemption bound (quick 2, thorough 3) of 2 writer threads x 2 lines and one Flush thread on the real GatedWriter, and of 2 writers plus RegisterHandler on the real logWriter (ring sizes 2,3), with a scheduling point at every lock operation and before every statement of the methods under test (field read-modify-writes split into read/point/write); non-trivial = at least one non-default choice",
 		Assumptions: []string{
 			"statement-level sequential consistency (a data race manifests as an interleaving of the statements' reads and writes)",
 			"the underlying io.Writer and the LogHandler are harness objects whose calls are atomic",
@@ -129,7 +129,7 @@ func c29gated(ctx *vc.Ctx, bound int) {
 		}
 		return out, "", ""
 	}
-	ctx.Explore(vc.ExploreOpts{Name: "gated/2w2l+flush", Bound: bound, MaxSteps: 5000}, body, check)
+	ctx.Explore(vc.ExploreOpts{Name: "gated/2w2l+flush", Bound: bound, FreeSwitches: true, MaxSteps: 5000}, body, check)
 }
 
 func c29logwriter(ctx *vc.Ctx, bound, size int) {
@@ -215,5 +215,5 @@ func c29logwriter(ctx *vc.Ctx, bound, size int) {
 		}
 		return "bad", "logwriter: monitor-sequence", fmt.Sprintf("ring size %d, write order %q: a monitor attached after between %d and %d lines received %q, which is not 'the last <=%d buffered lines oldest first, then every later line once' for any attachment point", size, g, lo, hi, h1.got, size)
 	}
-	ctx.Explore(vc.ExploreOpts{Name: fmt.Sprintf("logwriter/size%d", size), Bound: bound, MaxSteps: 5000}, body, check)
+	ctx.Explore(vc.ExploreOpts{Name: fmt.Sprintf("logwriter/size%d", size), Bound: bound, FreeSwitches: true, MaxSteps: 5000}, body, check)
 }
